@@ -52,6 +52,12 @@ func init() { register("C10", runC10) }
 //	Rw:<cred>:<name>:<probe>  INSIDE the write transaction (SQLite commit hook: statement done, COMMIT pending).  result
 //	                  "<c|r>:..+<role>,<ok|no>" ("+-" when no write transaction was committed or <probe> is the revoked
 //	                  value itself): the answer is the one <probe> gets alone
+//	XA:<value>        reconfiguration: restart on the same database with another admin token (percent-encoded); "adm" is the
+//	                  new one from here on, "oadm" the previous one - which is nothing any more
+//	AGE:<name>:<d>    the row of the token gets created_at = now - 2h | 25h | 400d, or now + f1h | f5m: age is no criterion
+//	FRR<n>:<name>     n fresh tokens: each is created and then authenticated and revoked concurrently (no hold), after both
+//	                  calls returned it must be refused - now (inside the op), in the vector entry raced* after every
+//	                  later op, after restarts.  result "frr:ok"; <name> is bound to the last of them
 //	RACE:<name>       (after a restart, so that nothing about the value is remembered in memory)
 //	                  an authenticate (GET /api/v1/access) of the value is started in a goroutine and held right after
 //	                  the token repository's lookup returned (decorated repository.Tokens); DELETE /api/v1/access/<value>
@@ -86,7 +92,10 @@ type c10State struct {
 	slow       int        // operations / cases that ran into a deadline so far in this run
 	pause      *tokPauser // scheduling point in the decorated token repository (c10_engine.go)
 	adminCfg   string     // configured admin token of this case ("" = the default of the configuration)
-	adminSrc   string     // how it is configured: "e" environment, "f" file, "d" directly
+	oldAdmin   string     // the admin token before the last XA
+	hasFRR     bool
+	raced      []string // FRR: every fresh token that was raced (authenticate vs revoke) in this case
+	adminSrc   string   // how it is configured: "e" environment, "f" file, "d" directly
 }
 
 func c10Unknown(name string) string {
@@ -120,6 +129,12 @@ func (st *c10State) resolve(name string) string {
 	}
 	if name == "adm" {
 		return st.admin
+	}
+	if name == "oadm" { // the admin token that was configured before the last XA (reconfiguration)
+		if st.oldAdmin != "" {
+			return st.oldAdmin
+		}
+		return c10Unknown("oadm")
 	}
 	if name == "emp" { // the empty bearer value: "Authorization: Bearer " / a websocket connect without token
 		return ""
@@ -182,6 +197,20 @@ func (st *c10State) vector() string {
 	var sb strings.Builder
 	for _, n := range st.names {
 		sb.WriteString(n + "=" + st.role(st.resolve(n)) + ",")
+	}
+	if st.hasFRR {
+		// every token whose revocation has been answered must be refused, however the race went
+		stale := 0
+		for _, t := range st.raced {
+			if st.role(t) != "N" {
+				stale++
+			}
+		}
+		if stale == 0 {
+			sb.WriteString("raced*=N,")
+		} else {
+			sb.WriteString(fmt.Sprintf("raced*=U%d,", stale))
+		}
 	}
 	sb.WriteString("adm=" + st.role(st.admin))
 	return sb.String()
@@ -565,6 +594,90 @@ func (st *c10State) op(o string, dir string) string {
 			}
 		}
 		return "ovl:" + heldRes + ":" + probeRes
+	case p[0] == "XA" && len(p) == 2:
+		// the operator changes http.auth_token and restarts the service on the same database
+		old := st.admin
+		st.adminCfg, st.adminSrc = pctDecode(p[1]), "d"
+		st.fs.Shutdown()
+		if err := st.open(dir); err != nil {
+			return "x:ERR " + strings.ReplaceAll(err.Error(), "\t", " ")
+		}
+		st.oldAdmin = old
+		return "xa"
+	case p[0] == "AGE" && len(p) == 3:
+		// the token grows old (or its clock was ahead): created_at is moved; validity does not depend on age
+		var d time.Duration
+		switch p[2] {
+		case "2h":
+			d = -2 * time.Hour
+		case "25h":
+			d = -25 * time.Hour
+		case "400d":
+			d = -400 * 24 * time.Hour
+		case "f1h":
+			d = time.Hour
+		case "f5m":
+			d = 5 * time.Minute
+		default:
+			return "BAD-OP"
+		}
+		if _, err := st.fs.DB.Exec(`UPDATE tokens SET created_at = ? WHERE token = ?`, time.Now().Add(d), st.resolve(p[1])); err != nil {
+			return "age:HARNESS-ERROR"
+		}
+		return "age"
+	case strings.HasPrefix(p[0], "FRR") && len(p) == 2:
+		// n FRESH tokens (never used to authenticate): each is created, then authenticated and revoked CONCURRENTLY
+		// (no hold: whatever interleaving of the storage calls occurs); once both calls have returned the token
+		// must be refused.  The last one is bound to <name>.
+		n := 0
+		fmt.Sscanf(p[0][3:], "%d", &n)
+		if n < 1 || n > 200 {
+			return "BAD-OP"
+		}
+		stale := 0
+		for i := 0; i < n; i++ {
+			code, body := st.do("POST", "/api/v1/access", st.admin)
+			var t struct {
+				Token string `json:"token"`
+			}
+			if code != 200 || json.Unmarshal([]byte(body), &t) != nil || !isAlnum32(t.Token) || st.seen[t.Token] {
+				return fmt.Sprintf("frr:CREATE-E%d", code)
+			}
+			st.seen[t.Token] = true
+			auth, rev := make(chan string, 1), make(chan int, 1)
+			go func() { auth <- st.role(t.Token) }()
+			go func() {
+				if i%3 == 1 {
+					time.Sleep(time.Duration(50+i*7%400) * time.Microsecond)
+				}
+				c, _ := st.do("DELETE", "/api/v1/access/"+t.Token, st.admin)
+				rev <- c
+			}()
+			a, rc := "", 0
+			for k := 0; k < 2; k++ {
+				select {
+				case a = <-auth:
+				case rc = <-rev:
+				case <-time.After(2 * waitDeadline):
+					return "frr:TIMEOUT"
+				}
+			}
+			if rc != 200 {
+				return fmt.Sprintf("frr:REVOKE-E%d", rc)
+			}
+			if a != "U" && a != "N" {
+				return "frr:INFLIGHT-" + a
+			}
+			st.raced = append(st.raced, t.Token)
+			st.bind[p[1]] = t.Token
+			if st.role(t.Token) != "N" {
+				stale++
+			}
+		}
+		if stale > 0 {
+			return fmt.Sprintf("frr:STALE(%d-of-%d)", stale, n)
+		}
+		return "frr:ok"
 	case o == "X":
 		st.fs.Shutdown()
 		if err := st.open(dir); err != nil {
@@ -584,6 +697,12 @@ func c10Names(ops []string) []string {
 	set := map[string]bool{}
 	for _, o := range ops {
 		p := strings.Split(o, ":")
+		if p[0] == "XA" {
+			continue
+		}
+		if p[0] == "AGE" && len(p) == 3 {
+			p = p[:2]
+		}
 		for _, n := range p[1:] {
 			if n != "adm" && n != "" {
 				set[n] = true
@@ -608,6 +727,7 @@ func (st *c10State) runCase(input string, idx int) (string, error) {
 		ops = ops[1:]
 	}
 	st.bind = map[string]string{}
+	st.oldAdmin, st.raced, st.hasFRR = "", nil, strings.Contains(input, "FRR")
 	st.names = c10Names(ops)
 	st.real = st.c.Thorough() || st.c.Only != "" || idx%8 == 0 || strings.Contains(input, "Wr:")
 	dir := st.c.TmpDir(fmt.Sprintf("c10-%d", idx))
@@ -730,6 +850,8 @@ func c10Gen(c *Ctx, maxLen int) string {
 				unbound = append(unbound[:k], unbound[k+1:]...)
 				created = append(created, nm)
 			}
+		case r < 22 && c.Rng.Intn(6) == 0 && len(created) > 0:
+			ops = append(ops, "AGE:"+pick(created)+":"+pick([]string{"2h", "25h", "400d", "f1h", "f5m"}))
 		case r < 22 && c.Rng.Intn(4) == 0 && len(created) > 0:
 			if c.Rng.Intn(2) == 0 {
 				ops = append(ops, "Rw:adm:"+target()+":"+anyName())
